@@ -232,9 +232,9 @@ theorem addFaces_poly (hk : cfg.kind = .poly) (ht : cfg.topoCheck = false) (edge
     (fs : List (List Nat)) : addFaces cfg edges fs = .ok true :=
   addFaces_all cfg edges fs (fun f _ => by simp [addFace, hk, ht, R_pure])
 
-theorem addCells_poly (hk : cfg.kind = .poly) (ht : cfg.topoCheck = false) (faces : List (List Nat))
-    (cs : List (List Nat)) : addCells cfg faces cs = .ok (some cs) :=
-  addCells_all cfg faces cs (fun c _ => by simp [addCell, baseAddCell, hk, ht, R_pure])
+theorem addCells_poly (hk : cfg.kind = .poly) (ht : cfg.topoCheck = false) (edges : List (Nat × Nat))
+    (faces : List (List Nat)) (cs : List (List Nat)) : addCells cfg edges faces cs = .ok (some cs) :=
+  addCells_all cfg edges faces cs (fun c _ => by simp [addCell, baseAddCell, hk, ht, R_pure])
 
 theorem topo_valence (fixed : Bool) (v fv : Nat)
     (h : (F.topo == topoTypePolyhedral || (fixed && v == fv)) = true) (hne : F.topo ≠ topoTypePolyhedral) :
@@ -336,7 +336,7 @@ theorem lstep_cells (hk : cfg.kind = .poly) (ht : cfg.topoCheck = false) (hw : W
         have ht' : (stOf F cur).topo = F.topo := rfl
         rw [ht'] at h
         simpa [h, topoTypeHexahedral, topoTypeTetrahedral] using this)
-      (addCells_poly cfg hk ht _ _)
+      (addCells_poly cfg hk ht _ _ _)
     rw [stOf_cells_length F cur hcur] at hres
     rw [hres, hcur', hsl]
     simp only [stOf, Except.ok.injEq, RState.mk.injEq, true_and, and_true]
